@@ -97,10 +97,57 @@ let do_bbox (op : string) (a : string array) : string =
   | "co.flip" -> out_fmt fmt_xy (coord_flip_y (n 0) (n 1) (n 2))
   | _ -> "?unknown-op"
 
+(* ---------- pipelines (C02 C03 C06 C08 C09) ---------- *)
+let rec take_n n f toks = if n = 0 then ([], toks) else
+  let (x, r) = f toks in let (xs, r') = take_n (n - 1) f r in (x :: xs, r')
+let tok_n = function t :: r -> (n_of_string t, r) | [] -> failwith "eof"
+let tok_box = function t :: r -> (parse_bbox t, r) | [] -> failwith "eof"
+let opt_n s = if s = "-" then None else Some (n_of_string s)
+
+let rec parse_pexpr (toks : string list) : pexpr * string list =
+  match toks with
+  | "leaf" :: n :: r ->
+      let (tiles, r') = take_n (int_of_string n) (fun t -> match t with
+        | z :: x :: y :: id :: r -> ((((n_of_string z, n_of_string x), n_of_string y), n_of_string id), r)
+        | _ -> failwith "leaf") r in
+      (PLeaf tiles, r')
+  | "zoom" :: a :: b :: r -> let (e, r') = parse_pexpr r in (PZoom (opt_n a, opt_n b, e), r')
+  | "bbox" :: k :: r -> let (bs, r') = take_n (int_of_string k) tok_box r in
+      let (e, r'') = parse_pexpr r' in (PBBox (bs, e), r'')
+  | "over" :: k :: r -> let (es, r') = take_n (int_of_string k) parse_pexpr r in (POver es, r')
+  | "conv" :: f :: sw :: "-" :: r -> let (e, r') = parse_pexpr r in (PConv (f = "1", sw = "1", None, e), r')
+  | "conv" :: f :: sw :: k :: r -> let (bs, r') = take_n (int_of_string k) tok_box r in
+      let (e, r'') = parse_pexpr r' in (PConv (f = "1", sw = "1", Some bs, e), r'')
+  | t :: _ -> failwith ("bad expr token " ^ t)
+  | [] -> failwith "empty expr"
+
+let rec split_queries (toks : string list) (cur : string list) (acc : string list list) =
+  match toks with
+  | [] -> List.rev (if cur = [] then acc else List.rev cur :: acc)
+  | ";;" :: r -> split_queries r [] (if cur = [] then acc else List.rev cur :: acc)
+  | t :: r -> split_queries r (t :: cur) acc
+
+let do_pipe (args : string list) : string =
+  let (e, rest) = parse_pexpr args in
+  let src = denote conv_lookup_inverse conv_range_guard conv_selection_guard bbox_index_variant e in
+  let answer q = match q with
+    | ["L"; z; x; y] -> (match src.look ((n_of_string z, n_of_string x), n_of_string y) with
+        | Ok None -> "-" | Ok (Some v) -> string_of_n v | Err -> "err" | _ -> "panic")
+    | ["S"; b] -> (match src.strm (parse_bbox b) with
+        | Ok l ->
+            let items = List.map (fun (((z, x), y), id) -> (int_of_n z, int_of_n x, int_of_n y, int_of_n id)) l in
+            let items = List.sort compare items in
+            String.concat "," (List.map (fun (z, x, y, id) -> Printf.sprintf "%d:%d:%d:%d" z x y id) items)
+        | _ -> "panic")
+    | ["V"; z] -> let b = src.cov (n_of_string z) in if is_empty b then "empty" else fmt_bbox b
+    | _ -> "?query" in
+  String.concat " ;; " (List.map answer (split_queries rest [] []))
+
 (* ---------- dispatch ---------- *)
 let dispatch (op : string) (args : string list) : string =
   match op with
   | "cache" -> do_cache args
+  | "pipe" -> do_pipe args
   | _ when String.length op > 3 && (String.sub op 0 3 = "bb." || String.sub op 0 3 = "co.") -> do_bbox op (Array.of_list args)
   | _ -> "?unknown-op"
 
